@@ -574,15 +574,19 @@ def validate_traces(module, cfg, traces, fields, timeout=1200):
                 f.write(json.dumps(d, separators=(",", ":")) + "\n")
                 index.append((ti, ei))
     res = run_tlc(module, cfg, workers=1, timeout=timeout, env={"TRACEFILE": path})
-    m = re.search(r"The depth of the complete state graph search is (\d+)", res.stdout)
-    depth = int(m.group(1)) if m else 0
-    info = {"lines": len(index), "states": res.distinct, "depth": depth, "tlc_wall_s": round(res.wall, 1)}
+    hw = None
+    for v in res.emitted:
+        if isinstance(v, dict) and "hw" in v:
+            hw = v["hw"]
+    info = {"lines": len(index), "states": res.distinct, "tlc_wall_s": round(res.wall, 1), "high_water": hw}
     os.unlink(path)
-    if res.violation is None and depth - 1 == len(index):
+    if hw is None:
+        raise Infra("trace validation of %s produced no verdict:\n%s" % (module, res.stdout[-2000:]))
+    if res.violation is None and hw == len(index) + 1:
         return True, info
-    bad = min(max(depth - 1, 0), len(index) - 1)   # 0-based index of the first unmatched line
     if res.violation and "Invariant" in res.violation:
         info["invariant"] = res.violation
+    bad = min(max(hw - 1, 0), len(index) - 1)   # 0-based index of the first line TLC could not consume
     ti, ei = index[bad]
     info.update(trace_tag=traces[ti][0], trace_index=ti, event_index=ei,
                 event=(traces[ti][1] + [{"k": "reset"}])[ei], matched_prefix=bad,
